@@ -6,7 +6,7 @@
  *   new <id> <S|H|E> <spec>              scalar object on the stack / on the heap (new) / embedded in an Array
  *   arr|lst <id> <S|H> <ety> <spec>*     Array / List with the constructor arguments; ety: I | F | S | <k> (plain struct P<k>)
  *   tup <id> <S|H> <objid>*              Tuple of existing scalar objects
- *   tab|tre <id> <S|H> <kty> <vty> (<kspec> <vspec>)*     Table / Tree with constructor arguments; kty: I | S | <k>, vty: I | F | S | <k>
+ *   tab|tre <id> <S|H> <kty> <vty> (<kspec> <vspec>)*     Table / Tree with constructor arguments; kty, vty: I | F | S | <k>
  *                                        (key, value and element types of any size, in any combination; a Tree takes plain structs
  *                                        whose size is a multiple of 8 only: KF-C19-tree-misaligned-header)
  *   put <id> <spec>                      assign(obj, temporary of spec)             (scalars)
@@ -15,7 +15,8 @@
  *   H <a>                                dump and hash
  *   eq <a> <b>                           cmp(a,b) (sign) and both hashes
  *   heq <a> <b>                          both hashes only (no comparison)
- *   copy <newid> <a> | assign <y> <x> | swap <a> <b>
+ *   copy <newid> <a> | assign <y> <x> | swap <a> <b>      (assign <x> <x>: self-assignment, every kind but a String)
+ *   has <c> <spec>                       mem(c, x) and, for a Table / Tree, get(c, x)
  *   hcopy <newid> <a> | hassign <y> <x>  copy / assign observed through content and hashes only (no cmp: for Tables of any layout,
  *                                        whose cmp is order-of-slots dependent — KF-C10-table-cmp)
  * spec: i:<dec> | f:<16 hex: bits> | s:<hex bytes, no 00> | t:<builtin type name> | u:<name: run-time Type of that name> |
@@ -388,6 +389,28 @@ static char* toks[MAXTOK]; static int ntok;
 static void tokenize(char* l) { ntok = 0; char* p = l; while (*p && ntok < MAXTOK) { while (*p == ' ') p++; if (!*p) break; toks[ntok++] = p; while (*p && *p != ' ') p++; if (*p) *p++ = 0; } }
 
 static size_t n_eq_pairs = 0, n_equal_by_construction = 0, n_copy = 0, n_swap = 0, n_hashdata = 0;
+/* coverage of nearly equal values: compared pairs of different scalars that are neighbours (doubles at most 4 ulp apart or the two
+ * smallest subnormals of opposite sign; Ints 1, 2^31, 2^32 or 2^63 apart; Strings / structs differing in the last byte only or by one
+ * trailing byte), lookups, self-assignments */
+static size_t n_near_float = 0, n_near_int = 0, n_near_bytes = 0, n_near_in_container = 0, n_lookup = 0, n_lookup_near = 0, n_self_assign = 0;
+static int sv_near(const SV* a, const SV* b) {
+  if (a->k != b->k || sv_equal(a, b)) return 0;
+  if (a->k == 'f') { if (f_is_nan(a->bits) || f_is_nan(b->bits)) return 0;
+    int64_t ka = (a->bits >> 63) ? -(int64_t)(a->bits & 0x7fffffffffffffffULL) : (int64_t)a->bits, kb = (b->bits >> 63) ? -(int64_t)(b->bits & 0x7fffffffffffffffULL) : (int64_t)b->bits;
+    uint64_t d = ka > kb ? (uint64_t)ka - (uint64_t)kb : (uint64_t)kb - (uint64_t)ka; return d <= 4; }
+  if (a->k == 'i') { uint64_t d = (uint64_t)a->i - (uint64_t)b->i; uint64_t e = (uint64_t)b->i - (uint64_t)a->i; if (e < d) d = e;
+    return d == 1 || d == (1ULL << 31) || d == (1ULL << 32) || d == (1ULL << 63); }
+  if (a->k == 's' || a->k == 'p') { size_t n = a->n < b->n ? a->n : b->n; size_t m = a->n > b->n ? a->n : b->n;
+    if (m - n > 1) return 0; if (m == n) return n > 0 && memcmp(a->b, b->b, n - 1) == 0; return memcmp(a->b, b->b, n) == 0; }
+  return 0;
+}
+static int shadow_near(const Shadow* a, const Shadow* b) {    /* 1: near scalars; 2: containers with a near pair at some position */
+  if (a->kind == 'v' && b->kind == 'v') return sv_near(&a->sv, &b->sv);
+  if (is_seq(a->kind) && is_seq(b->kind)) { size_t n = a->n < b->n ? a->n : b->n;
+    for (size_t i = 0; i < n; i++) { const SV* x = sh_item(a, i); const SV* y = sh_item(b, i); if (x && y && sv_near(x, y)) return 2; } return 0; }
+  if (is_map(a->kind) && is_map(b->kind)) { for (size_t i = 0; i < a->n; i++) for (size_t j = 0; j < b->n; j++) if (sv_near(&a->items[i], &b->items[j])) return 2; return 0; }
+  return 0;
+}
 /* coverage of element moves (white box): Tree removals of a node with two children (the in-order neighbour's payload is copied
  * over the node), of which with a value wider than the key / a key wider than the value; Table removals that shift a
  * neighbouring slot back or rehash, and Array removals / insertions that shift elements, on entries wider than one word each */
@@ -483,7 +506,7 @@ int main(int argc, char** argv) {
     else if (strcmp(op, "tab") == 0 || strcmp(op, "tre") == 0) {
       int id; int istab = op[1] == 'a';
       if (ntok < 5 || (ntok - 5) % 2 || !parse_id(toks[1], &id) || objs[id].used || strlen(toks[2]) != 1 || !strchr("SH", toks[2][0])
-          || strlen(toks[3]) != 1 || strlen(toks[4]) != 1 || toks[3][0] == 'F' || !ty_of_code(toks[3][0]) || !ty_of_code(toks[4][0])) { O("bad-op"); goto next; }
+          || strlen(toks[3]) != 1 || strlen(toks[4]) != 1 || !ty_of_code(toks[3][0]) || !ty_of_code(toks[4][0])) { O("bad-op"); goto next; }
       if (!istab && !(tree_ty_ok(toks[3][0]) && tree_ty_ok(toks[4][0]))) { O("bad-op"); goto next; }
       int n = (ntok - 5) / 2; SV* ks = calloc(n + 1, sizeof(SV)); SV* vs = calloc(n + 1, sizeof(SV)); int ok = 1;
       for (int i = 0; i < n; i++) { if (!parse_spec(toks[5 + 2*i], &ks[i]) || sv_ty(&ks[i]) != toks[3][0]) ok = 0; if (!parse_spec(toks[6 + 2*i], &vs[i]) || sv_ty(&vs[i]) != toks[4][0]) ok = 0; }
@@ -601,11 +624,44 @@ int main(int argc, char** argv) {
       int se = shadow_equal(&objs[a].sh, &objs[b].sh);
       int nan = shadow_has_nan(&objs[a].sh) || shadow_has_nan(&objs[b].sh);
       if (se && !nan) n_equal_by_construction++;
+      { int nr = shadow_near(&objs[a].sh, &objs[b].sh);
+        if (nr == 2) n_near_in_container++;
+        else if (nr == 1) { char k = objs[a].sh.sv.k; if (k == 'f') n_near_float++; else if (k == 'i') n_near_int++; else n_near_bytes++; } }
+      /* the comparison itself: cmp says equal exactly when the two values are the same value (bit patterns for doubles, the two
+       * zeros being one value; NaN is KF-C10-float-nan) */
+      if (!exc && c == 0 && !se && !nan) X("sig=c10-eq-distinct line=%zu what=eq(%d,%d) holds but the two objects hold different values by construction", cur_line, a, b);
       if (!exc && oka && okb) {
         if (c == 0 && va != vb) X("sig=%s line=%zu what=eq(%d,%d) holds but the hashes differ: %016" PRIx64 " vs %016" PRIx64, nan ? "kf-c10-float-nan" : "c10-eq-hash", cur_line, a, b, va, vb);
         if (se && c != 0 && !nan) X("sig=%s line=%zu what=objects %d and %d hold equal contents by construction but cmp gives %d", table_kf_territory(objs[a].p, objs[b].p) ? "kf-c10-table-cmp" : "c10-eq-by-construction", cur_line, a, b, sign(c));
         if (se && va != vb) X("sig=c10-hash-by-construction line=%zu what=objects %d and %d hold equal contents by construction but hash to %016" PRIx64 " and %016" PRIx64, cur_line, a, b, va, vb);
       }
+    }
+    else if (strcmp(op, "has") == 0) {   /* mem, and get for a map: a key eq to a stored one is found, any other is not */
+      int c; SV sv;
+      if (ntok != 3 || !parse_id(toks[1], &c) || !is_live(c) || objs[c].sh.kind == 'v' || !parse_spec(toks[2], &sv)) { O("bad-op"); goto next; }
+      Shadow* s = &objs[c].sh;
+      if (is_map(s->kind)) { if (sv_ty(&sv) != s->kty) { O("bad-op"); goto next; } }
+      else for (size_t i = 0; i < s->n; i++) { const SV* x = sh_item(s, i); if (!x || sv_ty(x) != sv_ty(&sv)) { O("bad-op"); goto next; } }
+      var key = temp_of(&sv); int m = 0; var mexc = NULL, gexc = NULL; var g = NULL;
+      V_TRY(mexc, m = mem(objs[c].p, key));
+      SB gs; sb_init(&gs);
+      if (is_map(s->kind)) { V_TRY(gexc, g = get(objs[c].p, key)); if (gexc) sb_puts(&gs, v_exc_name(gexc)); else dump_scalar(&gs, g); } else sb_puts(&gs, "-");
+      if (mexc) O("has %d m=%s g=%s", c, v_exc_name(mexc), gs.s); else O("has %d m=%d g=%s", c, m ? 1 : 0, gs.s);
+      n_lookup++;
+      int nan = (sv.k == 'f' && f_is_nan(sv.bits)) || shadow_has_nan(s);
+      if (!nan) {
+        size_t at = (size_t)-1; int near = 0;
+        if (is_map(s->kind)) { at = sh_map_find(s, &sv); for (size_t i = 0; i < s->n; i++) if (sv_near(&s->items[i], &sv)) near = 1; }
+        else for (size_t i = 0; i < s->n; i++) { const SV* x = sh_item(s, i); if (x && sv_equal(x, &sv) && at == (size_t)-1) at = i; if (x && sv_near(x, &sv)) near = 1; }
+        if (near) n_lookup_near++;
+        int want = at != (size_t)-1;
+        if (mexc || (m ? 1 : 0) != want) X("sig=c10-lookup line=%zu what=mem(%d, %s) gives %s, the container %s such an element by construction", cur_line, c, toks[2], mexc ? v_exc_name(mexc) : (m ? "true" : "false"), want ? "holds" : "does not hold");
+        if (is_map(s->kind)) {
+          if (want) { SB ws; sb_init(&ws); sv_dump(&ws, &s->vals[at]); if (gexc || strcmp(ws.s, gs.s) != 0) X("sig=c10-lookup line=%zu what=get(%d, %s) gives %s, the value stored under that key is %s", cur_line, c, toks[2], gs.s, ws.s); free(ws.s); }
+          else if (!gexc) X("sig=c10-lookup line=%zu what=get(%d, %s) gives %s for a key the container does not hold", cur_line, c, toks[2], gs.s);
+        }
+      }
+      free(gs.s);
     }
     else if (strcmp(op, "heq") == 0) {   /* hashes only: equal contents by construction must hash alike whatever the layout / kind */
       int a, b;
@@ -619,11 +675,22 @@ int main(int argc, char** argv) {
     }
     else if (strcmp(op, "copy") == 0 || strcmp(op, "assign") == 0 || strcmp(op, "hcopy") == 0 || strcmp(op, "hassign") == 0) {
       int y, x; int nocmp = op[0] == 'h'; int iscopy = op[nocmp] == 'c';
-      if (ntok != 3 || !parse_id(toks[1], &y) || !parse_id(toks[2], &x) || !is_live(x) || x == y) { O("bad-op"); goto next; }
+      if (ntok != 3 || !parse_id(toks[1], &y) || !parse_id(toks[2], &x) || !is_live(x) || (x == y && iscopy)) { O("bad-op"); goto next; }
+      /* assign(x, x): every kind but a String (String_Assign reallocates the buffer and then copies from the old pointer) */
+      if (x == y && objs[x].sh.kind == 'v' && objs[x].sh.sv.k == 's') { O("bad-op"); goto next; }
       if (iscopy ? objs[y].used : (!is_live(y) || !assign_allowed(&objs[y].sh, &objs[x].sh))) { O("bad-op"); goto next; }
       var px = objs[x].p; var py = NULL;
+      SB self0; sb_init(&self0); uint64_t selfh0 = 0; int selfhok = 0;
+      if (x == y) { dump_value(&self0, px, 1); selfhok = hash_of(px); selfh0 = H_val; n_self_assign++; }
       if (iscopy) { V_TRY(exc, py = copy(px)); }
       else { py = objs[y].p; V_TRY(exc, assign(py, px)); }
+      if (x == y) {   /* with or without an exception, assign(x, x) leaves x as it was */
+        SB self1; sb_init(&self1); dump_value(&self1, px, 1); int h1ok = hash_of(px);
+        if (strcmp(self0.s, self1.s) != 0 || h1ok != selfhok || (h1ok && H_val != selfh0))
+          X("sig=c10-assign-self line=%zu what=assign(%d,%d) changed the object: before %.300s after %.300s", cur_line, x, x, self0.s, self1.s);
+        free(self1.s);
+      }
+      free(self0.s);
       if (iscopy) {
         if (exc) { O("%s %d %d %s", op, y, x, v_exc_name(exc)); goto next; }
         Obj* o = &objs[y]; o->p = py; o->used = 1; o->cls = 'H'; memset(&o->sh, 0, sizeof o->sh); o->sh.kind = objs[x].sh.kind; o->sh.sv = objs[x].sh.sv;
@@ -631,7 +698,7 @@ int main(int argc, char** argv) {
         if (header(py)->alloc != (var)AllocHeap) X("sig=c10-copy-class line=%zu what=copy did not return a heap object", cur_line);
         if (type_of(py) != type_of(px)) X("sig=c10-copy-type line=%zu what=copy returned an object of another type", cur_line);
       }
-      if (!exc) shadow_copy_content(&objs[y].sh, &objs[x].sh);
+      if (!exc && x != y) shadow_copy_content(&objs[y].sh, &objs[x].sh);
       n_copy++;
       SB d; sb_init(&d); dump_value(&d, objs[y].p, 1); char hy[40], hx[40];
       hash_str(hy, sizeof hy, objs[y].p, &objs[y].sh); uint64_t vy = H_val; int oky = H_exc == NULL;
@@ -677,6 +744,8 @@ int main(int argc, char** argv) {
   I("eq_pairs=%zu equal_by_construction=%zu copies=%zu swaps=%zu hash_data=%zu", n_eq_pairs, n_equal_by_construction, n_copy, n_swap, n_hashdata);
   I("tree_two_child_rems=%zu tree_two_child_rems_value_wider=%zu tree_two_child_rems_key_wider=%zu table_shifting_rems_wide=%zu array_shifts_wide=%zu",
     n_tree_reloc, n_tree_reloc_vwide, n_tree_reloc_kwide, n_table_shift_wide, n_array_shift_wide);
+  I("near_float_pairs=%zu near_int_pairs=%zu near_bytes_pairs=%zu near_in_container_pairs=%zu lookups=%zu lookups_with_near_key=%zu self_assigns=%zu",
+    n_near_float, n_near_int, n_near_bytes, n_near_in_container, n_lookup, n_lookup_near, n_self_assign);
   fflush(stdout);
   _exit(0);   /* objects are leaked on purpose (shared elements, Boxes sharing a target): no teardown */
 }
